@@ -178,6 +178,19 @@ fn extract<'tcx>(tcx: TyCtxt<'tcx>, name: &str) -> J {
                 o.put("loc", loc(tcx, tcx.def_span(did)));
                 let t = tcx.type_of(did).instantiate_identity().skip_norm_wip();
                 o.put("ty", J::s(&ty_s(t)));
+                // evaluated value of non-generic constants (so that `const N: usize = 1` and a
+                // literal 1 compare equal in the rules)
+                if tcx.generics_of(did).count() == 0 {
+                    if let Ok(cv) = tcx.const_eval_poly(did) {
+                        let c = Const::Val(cv, t);
+                        let mut v = String::new();
+                        let _ = write!(v, "{}", c);
+                        o.put("val", J::s(&v));
+                        if let Some(si) = cv.try_to_scalar_int() {
+                            o.put("bits", J::s(&format!("{}", si.to_bits_unchecked())));
+                        }
+                    }
+                }
                 consts.push(o);
             }
             DefKind::Trait => {
